@@ -33,6 +33,26 @@ Qed.
 Lemma u32_succ a : u32 (u32 a + 1) = u32 (a + 1).
 Proof. unfold u32. rewrite N.add_mod_idemp_l by lia. reflexivity. Qed.
 
+Lemma streams_app a b : streams (a ++ b) = streams a ++ streams b.
+Proof. unfold streams. apply flat_map_app. Qed.
+
+(* events of the serving side and of message handling: no call bookkeeping *)
+Definition srv_only (e : event) : Prop :=
+  match e with EvSend _ | EvService _ _ | EvDone _ _ | EvChanClose => True | _ => False end.
+Lemma srv_only_streams evs : Forall srv_only evs -> streams evs = [].
+Proof.
+  induction 1 as [|e l He Hl IH]; [reflexivity|].
+  unfold streams in *. cbn [flat_map]. rewrite IH.
+  destruct e; cbn in *; try reflexivity; contradiction.
+Qed.
+Lemma srv_only_nodone_dones evs : Forall srv_only evs -> (forall k o, ~ In (EvDone k o) evs) -> dones evs = [].
+Proof.
+  induction 1 as [|e l He Hl IH]; intros Hn; [reflexivity|].
+  unfold dones in *. cbn [flat_map]. rewrite IH.
+  - destruct e; cbn in *; try reflexivity. exfalso. eapply Hn. left. reflexivity.
+  - intros k o Hi. eapply Hn. right. exact Hi.
+Qed.
+
 Section Once.
 Variable s0 : N.   (* the sequence number the channel starts with *)
 
@@ -42,14 +62,18 @@ Definition own (ms : list msg) (p : N * outcome) : Prop :=
   snd p = OFailed TXT_SEND_FAILED \/ snd p = OFailed TXT_DUPLICATE \/
   exists m, In m ms /\ m_id m = idof (fst p) /\ resp_outcome m = Some (snd p).
 
-Definition J (r : rpc) (ds : list (N * outcome)) (ms : list msg) : Prop :=
+(* r: call state; ds: completions so far; ms: messages dispatched so far; ss: streaming calls so far *)
+Definition J (r : rpc) (ds : list (N * outcome)) (ms : list msg) (ss : list N) : Prop :=
   (forall id k, lookup id (responses r) = Some k -> k < ncalls r /\ id = idof k) /\
   (forall k, k < ncalls r ->
-     (cnt k ds = 1%nat /\ lookup (idof k) (responses r) <> Some k) \/
-     (cnt k ds = 0%nat /\ lookup (idof k) (responses r) = Some k)) /\
+     (In k ss /\ cnt k ds = 0%nat /\ lookup (idof k) (responses r) <> Some k) \/
+     (~ In k ss /\
+      ((cnt k ds = 1%nat /\ lookup (idof k) (responses r) <> Some k) \/
+       (cnt k ds = 0%nat /\ lookup (idof k) (responses r) = Some k)))) /\
   (forall k, ncalls r <= k -> cnt k ds = 0%nat) /\
   seq r = idof (ncalls r) /\
-  (forall p, In p ds -> own ms p).
+  (forall p, In p ds -> own ms p) /\
+  (forall k, In k ss -> k < ncalls r).
 
 Lemma own_mono ms ms' p : own ms p -> own (ms ++ ms') p.
 Proof.
@@ -57,42 +81,43 @@ Proof.
   right; right. exists m. split; [apply in_or_app; left; exact Hi|auto].
 Qed.
 
-Lemma J_mono r ds ms ms' : J r ds ms -> J r ds (ms ++ ms').
+Lemma J_mono r ds ms ms' ss : J r ds ms ss -> J r ds (ms ++ ms') ss.
 Proof.
-  intros (A & B & C & D & E). repeat split; auto.
-  - apply A in H. tauto.
-  - apply A in H. tauto.
-  - intros p Hp. apply own_mono. auto.
+  intros (A & B & C & D & E & F). split; [exact A|]. split; [exact B|]. split; [exact C|].
+  split; [exact D|]. split; [|exact F]. intros p Hp. apply own_mono. auto.
 Qed.
 
-(* changing only the dead flag does not matter *)
-Lemma J_dead r ds ms b : J r ds ms -> J (mkRpc b (seq r) (ncalls r) (responses r)) ds ms.
-Proof. intros H. exact H. Qed.
+Lemma J_same r r' ds ms ss :
+  seq r' = seq r -> ncalls r' = ncalls r -> responses r' = responses r -> J r ds ms ss -> J r' ds ms ss.
+Proof. unfold J. intros -> -> ->. auto. Qed.
 
-Lemma J_handle_response r ds ms m o r' evs :
-  J r ds ms -> In m ms -> resp_outcome m = Some o ->
+Lemma J_handle_response r ds ms ss m o r' evs :
+  J r ds ms ss -> In m ms -> resp_outcome m = Some o ->
   handle_response r m o = (r', evs) ->
-  J r' (ds ++ dones evs) ms.
+  J r' (ds ++ dones evs) ms ss.
 Proof.
-  intros (A & B & C & D & E) Hin Ho H. unfold handle_response in H.
+  intros (A & B & C & D & E & F) Hin Ho H. unfold handle_response in H.
   destruct (lookup (m_id m) (responses r)) as [k|] eqn:El.
-  2:{ inversion H; subst. cbn. rewrite app_nil_r. repeat split; auto; apply A in H0; tauto. }
+  2:{ inversion H; subst. cbn. rewrite app_nil_r. unfold J. auto 10. }
   inversion H; subst r' evs; clear H. cbn [dones flat_map app].
   destruct (A _ _ El) as [Hk Hid].
-  unfold J; cbn [responses ncalls seq]. split; [|split; [|split; [|split]]].
+  unfold J; cbn [responses ncalls seq set_responses]. split; [|split; [|split; [|split; [|split]]]].
   - intros id k' Hl. destruct (N.eq_dec id (m_id m)) as [->|Hne].
     + rewrite lookup_remove_same in Hl. discriminate.
     + rewrite lookup_remove_other in Hl by exact Hne. auto.
   - intros k' Hk'. rewrite cnt_app, cnt_one.
     destruct (k =? k') eqn:Ek.
-    + apply N.eqb_eq in Ek. subst k'. left.
-      destruct (B k Hk) as [[_ Hn]|[Hc _]]; [rewrite <- Hid in Hn; congruence|].
-      rewrite Hc. split; [reflexivity|]. rewrite <- Hid, lookup_remove_same. discriminate.
+    + apply N.eqb_eq in Ek. subst k'.
+      destruct (B k Hk) as [(Hs & Hc & Hn)|(Hs & [[Hc Hn]|[Hc Hl]])];
+        [rewrite <- Hid in Hn; congruence|rewrite <- Hid in Hn; congruence|].
+      right. split; [exact Hs|]. left. rewrite Hc. split; [reflexivity|].
+      rewrite <- Hid, lookup_remove_same. discriminate.
     + apply N.eqb_neq in Ek. rewrite Nat.add_0_r.
       destruct (N.eq_dec (idof k') (m_id m)) as [He|Hne].
-      * left. rewrite He, lookup_remove_same.
-        destruct (B k' Hk') as [[Hc _]|[_ Hl]].
-        -- split; [exact Hc|discriminate].
+      * rewrite He, lookup_remove_same.
+        destruct (B k' Hk') as [(Hs & Hc & Hn)|(Hs & [[Hc Hn]|[Hc Hl]])].
+        -- left. split; [exact Hs|]. split; [exact Hc|discriminate].
+        -- right. split; [exact Hs|]. left. split; [exact Hc|discriminate].
         -- rewrite He, El in Hl. congruence.
       * rewrite lookup_remove_other by exact Hne. apply B. exact Hk'.
   - intros k' Hk'. rewrite cnt_app, cnt_one. rewrite (C k' Hk').
@@ -100,88 +125,149 @@ Proof.
   - exact D.
   - intros p Hp. apply in_app_or in Hp as [Hp|[<-|[]]]; [auto|].
     right; right. exists m. cbn. rewrite <- Hid. auto.
+  - exact F.
 Qed.
 
 Lemma send_msg_rpc cl ok r m r' evs b :
   send_msg cl ok r m = (r', evs, b) ->
-  seq r' = seq r /\ ncalls r' = ncalls r /\ responses r' = responses r /\ dones evs = [].
+  seq r' = seq r /\ ncalls r' = ncalls r /\ responses r' = responses r /\ dones evs = [] /\
+  streams evs = [].
 Proof.
-  unfold send_msg. intros H. destruct (dead r || cl); [inversion H; subst; auto|].
-  destruct ok; inversion H; subst; cbn; auto.
+  unfold send_msg. intros H. destruct (dead r || cl); [inversion H; subst; auto 10|].
+  destruct ok; inversion H; subst; cbn; auto 10.
 Qed.
-
-Lemma J_same r r' ds ms :
-  seq r' = seq r -> ncalls r' = ncalls r -> responses r' = responses r -> J r ds ms -> J r' ds ms.
-Proof. unfold J. intros -> -> ->. auto. Qed.
 
 Variable method_kind : list N -> N.
 Variable req_ok : list N -> bool.
-Variable service : list N -> list N -> sres.
-Variable call_name call_req : list N.
+Variable service : list N -> list N -> option sres.
 Notation dispatch := (dispatch method_kind req_ok service).
 
-Lemma J_dispatch cl ok r ds ms m r' evs :
-  J r ds ms -> In m ms -> dispatch cl ok r m = (r', evs) -> J r' (ds ++ dones evs) ms.
+Lemma request_complete_rpc cl ok r q res r' evs :
+  request_complete cl ok r q res = (r', evs) ->
+  seq r' = seq r /\ ncalls r' = ncalls r /\ responses r' = responses r /\ dones evs = [] /\
+  streams evs = [].
+Proof.
+  unfold request_complete. intros H.
+  destruct (memN q (cancelled r)); [inversion H; subst; cbn; auto 10|].
+  destruct (key_of q (requests r)); [|inversion H; subst; cbn; auto 10].
+  destruct (send_msg _ _ _ _) as [[r1 e1] b1] eqn:E. inversion H; subst. cbn.
+  apply send_msg_rpc in E. exact E.
+Qed.
+
+Lemma supersede_rpc cl ok r id r' evs :
+  supersede cl ok r id = (r', evs) ->
+  seq r' = seq r /\ ncalls r' = ncalls r /\ responses r' = responses r /\ dones evs = [] /\
+  streams evs = [].
+Proof.
+  unfold supersede. intros H. destruct (lookup id (requests r)); [|inversion H; subst; cbn; auto 10].
+  destruct (send_msg _ _ _ _) as [[r1 e1] b1] eqn:E. inversion H; subst. cbn.
+  apply send_msg_rpc in E. exact E.
+Qed.
+
+Lemma handle_request_rpc cl ok r m r' evs :
+  handle_request method_kind req_ok service cl ok r m = (r', evs) ->
+  seq r' = seq r /\ ncalls r' = ncalls r /\ responses r' = responses r /\ dones evs = [] /\
+  streams evs = [].
+Proof.
+  unfold handle_request. intros H.
+  destruct (method_kind (m_name m) =? 0).
+  - destruct (send_msg _ _ _ _) as [[r1 e1] b1] eqn:E. inversion H; subst.
+    apply send_msg_rpc in E. exact E.
+  - destruct (negb (req_ok (m_buf m))); [inversion H; subst; cbn; auto 10|].
+    destruct (supersede cl ok r (m_id m)) as [r1 evs1] eqn:E1.
+    apply supersede_rpc in E1 as (S1 & S2 & S3 & S4 & S5).
+    destruct (service (m_name m) (m_buf m)) as [res|].
+    + destruct (request_complete _ _ _ _ _) as [r3 evs3] eqn:E3. inversion H; subst.
+      apply request_complete_rpc in E3 as (T1 & T2 & T3 & T4 & T5). cbn in T1, T2, T3.
+      rewrite dones_app, streams_app, S4, S5.
+      unfold dones at 1, streams at 1. cbn [flat_map app]. fold (dones evs3). fold (streams evs3).
+      rewrite T4, T5. repeat split; congruence.
+    + inversion H; subst. cbn. rewrite dones_app, streams_app, S4, S5. cbn. auto 10.
+Qed.
+
+Lemma J_dispatch cl ok r ds ms ss m r' evs :
+  J r ds ms ss -> In m ms -> dispatch cl ok r m = (r', evs) ->
+  J r' (ds ++ dones evs) ms ss /\ streams evs = [].
 Proof.
   intros HJ Hin H. unfold Model.dispatch in H.
   destruct (m_type m =? REQUEST).
-  - unfold handle_request in H.
-    destruct (method_kind (m_name m) =? 0).
-    + destruct (send_msg _ _ _ _) as [[r1 e1] b1] eqn:E. inversion H; subst.
-      apply send_msg_rpc in E as (S1 & S2 & S3 & S4). rewrite S4, app_nil_r.
-      eapply J_same; eauto.
-    + destruct (negb (req_ok (m_buf m))); [inversion H; subst; cbn; rewrite app_nil_r; exact HJ|].
-      destruct (send_msg _ _ _ _) as [[r1 e1] b1] eqn:E. inversion H; subst.
-      apply send_msg_rpc in E as (S1 & S2 & S3 & S4).
-      unfold dones in *. cbn [flat_map app]. rewrite S4, app_nil_r.
-      eapply J_same; eauto.
+  - apply handle_request_rpc in H as (S1 & S2 & S3 & S4 & S5). rewrite S4, app_nil_r.
+    split; [eapply J_same; eauto|exact S5].
   - destruct (resp_outcome m) as [o|] eqn:Eo.
-    + eapply J_handle_response; eauto.
-    + destruct (m_type m =? STREAM_REQUEST); [|inversion H; subst; cbn; rewrite app_nil_r; exact HJ].
+    + split; [eapply J_handle_response; eauto|].
+      unfold handle_response in H. destruct (lookup _ _); inversion H; subst; reflexivity.
+    + destruct (m_type m =? STREAM_REQUEST);
+        [|inversion H; subst; cbn; rewrite app_nil_r; split; [exact HJ|reflexivity]].
       unfold handle_stream_request in H.
       destruct (method_kind (m_name m) =? 0).
       * destruct (send_msg _ _ _ _) as [[r1 e1] b1] eqn:E. inversion H; subst.
-        apply send_msg_rpc in E as (S1 & S2 & S3 & S4). rewrite S4, app_nil_r.
-        eapply J_same; eauto.
+        apply send_msg_rpc in E as (S1 & S2 & S3 & S4 & S5). rewrite S4, app_nil_r.
+        split; [eapply J_same; eauto|exact S5].
       * destruct (negb (method_kind (m_name m) =? 2));
-          [inversion H; subst; cbn; rewrite app_nil_r; exact HJ|].
-        destruct (negb (req_ok (m_buf m))); inversion H; subst; cbn; rewrite app_nil_r; exact HJ.
+          [inversion H; subst; cbn; rewrite app_nil_r; split; [exact HJ|reflexivity]|].
+        destruct (negb (req_ok (m_buf m))); inversion H; subst; cbn; rewrite app_nil_r;
+          (split; [exact HJ|reflexivity]).
 Qed.
 
 Lemma idof_succ k : u32 (idof k + 1) = idof (k + 1).
 Proof. unfold idof. rewrite u32_succ. f_equal. lia. Qed.
 
-Lemma J_call cl ok r ds ms r' evs :
-  J r ds ms -> call_method call_name call_req cl ok r = (r', evs) -> J r' (ds ++ dones evs) ms.
+Lemma J_call cl ok st nm rq r ds ms ss r' evs :
+  J r ds ms ss -> call_method cl ok st nm rq r = (r', evs) ->
+  J r' (ds ++ dones evs) ms (ss ++ streams evs).
 Proof.
-  intros (A & B & C & D & E) H. unfold call_method in H.
+  intros (A & B & C & D & E & F) H. unfold call_method in H.
   destruct (send_msg _ _ _ _) as [[r2 evs2] b] eqn:Es.
-  apply send_msg_rpc in Es as (S1 & S2 & S3 & S4). cbn [seq ncalls responses] in S1, S2, S3.
+  apply send_msg_rpc in Es as (S1 & S2 & S3 & S4 & S5). cbn [seq ncalls responses next_call] in S1, S2, S3.
   assert (Hfresh : forall id, lookup id (responses r) <> Some (ncalls r)).
   { intros id Hl. apply A in Hl. lia. }
+  assert (Hnotin : ~ In (ncalls r) ss) by (intros Hi; apply F in Hi; lia).
+  assert (Hseq : seq r2 = idof (ncalls r + 1)) by (rewrite S1, D; apply idof_succ).
+  destruct st.
+  { (* a streaming call: draws an id, is never registered and never completed *)
+    inversion H; subst r' evs; clear H.
+    unfold dones, streams. cbn [flat_map]. fold (dones evs2). fold (streams evs2).
+    rewrite S4, S5, app_nil_r. cbn [app].
+    unfold J. rewrite S2, S3. split; [|split; [|split; [|split; [|split]]]].
+    - intros id k Hl. apply A in Hl. split; [lia|tauto].
+    - intros k Hk. destruct (N.eq_dec k (ncalls r)) as [->|Hne].
+      + left. split; [apply in_or_app; right; left; reflexivity|]. split; [apply C; lia|apply Hfresh].
+      + assert (Hk2 : k < ncalls r) by lia.
+        destruct (B k Hk2) as [(Hs & Hc)|(Hs & Hc)].
+        * left. split; [apply in_or_app; left; exact Hs|exact Hc].
+        * right. split; [|exact Hc]. intros Hi. apply in_app_or in Hi as [Hi|[Hi|[]]]; [tauto|congruence].
+    - intros k Hk. apply C. lia.
+    - exact Hseq.
+    - exact E.
+    - intros k Hi. apply in_app_or in Hi as [Hi|[<-|[]]]; [apply F in Hi; lia|lia]. }
+  assert (Hstr : forall x, streams (EvCall (ncalls r) (seq r) :: evs2 ++ x) = streams x).
+  { intros x. unfold streams. cbn [flat_map]. rewrite flat_map_app. fold (streams evs2). rewrite S5. reflexivity. }
+  assert (Hss : forall k, k < ncalls r + 1 -> k <> ncalls r -> k < ncalls r) by (intros; lia).
   destruct (negb b).
   - (* the send failed: completed at once, never registered *)
     inversion H; subst r' evs; clear H.
+    rewrite Hstr. cbn [streams flat_map]. rewrite app_nil_r.
     unfold dones at 1. cbn [flat_map]. fold (dones (evs2 ++ [EvDone (ncalls r) (OFailed TXT_SEND_FAILED)])).
     rewrite dones_app, S4. cbn [dones flat_map app].
-    unfold J. rewrite S1, S2, S3. split; [|split; [|split; [|split]]].
+    unfold J. rewrite S2, S3. split; [|split; [|split; [|split; [|split]]]].
     + intros id k Hl. apply A in Hl. split; [lia|tauto].
     + intros k Hk. rewrite cnt_app, cnt_one.
       destruct (ncalls r =? k) eqn:Ek.
-      * apply N.eqb_eq in Ek. subst k. left. rewrite (C (ncalls r)) by lia. split; [reflexivity|apply Hfresh].
+      * apply N.eqb_eq in Ek. subst k. right. split; [exact Hnotin|]. left.
+        rewrite (C (ncalls r)) by lia. split; [reflexivity|apply Hfresh].
       * apply N.eqb_neq in Ek. rewrite Nat.add_0_r. apply B. lia.
     + intros k Hk. rewrite cnt_app, cnt_one. rewrite C by lia.
       destruct (ncalls r =? k) eqn:Ek; [apply N.eqb_eq in Ek; lia|reflexivity].
-    + rewrite D. apply idof_succ.
+    + exact Hseq.
     + intros p Hp. apply in_app_or in Hp as [Hp|[<-|[]]]; [auto|]. left. reflexivity.
-  - rewrite S3 in H.
+    + intros k Hi. apply F in Hi. lia.
+  - rewrite S3 in H. unfold set_responses in H.
     assert (Hnew : forall id k, lookup id ((seq r, ncalls r) :: remove (seq r) (responses r)) = Some k ->
                    k < ncalls r + 1 /\ id = idof k).
     { intros id k Hl. cbn in Hl. destruct (seq r =? id) eqn:Ei.
       - apply N.eqb_eq in Ei. inversion Hl; subst. split; [lia|exact D].
       - apply N.eqb_neq in Ei. rewrite lookup_remove_other in Hl by congruence.
         apply A in Hl. split; [lia|tauto]. }
-    assert (Hseq : seq r2 = idof (ncalls r + 1)) by (rewrite S1, D; apply idof_succ).
     assert (Hlk : forall k, k < ncalls r ->
               lookup (idof k) ((seq r, ncalls r) :: remove (seq r) (responses r)) =
               if seq r =? idof k then Some (ncalls r) else lookup (idof k) (responses r)).
@@ -189,49 +275,63 @@ Proof.
       apply N.eqb_neq in Ei. apply lookup_remove_other. congruence. }
     assert (Hself : lookup (idof (ncalls r)) ((seq r, ncalls r) :: remove (seq r) (responses r)) = Some (ncalls r)).
     { cbn. rewrite D, N.eqb_refl. reflexivity. }
+    (* what happens to an older call k whose id is not being superseded *)
+    assert (Hold : forall k, k < ncalls r -> lookup (seq r) (responses r) <> Some k ->
+              (In k ss /\ cnt k ds = 0%nat /\
+               lookup (idof k) ((seq r, ncalls r) :: remove (seq r) (responses r)) <> Some k) \/
+              (~ In k ss /\
+               ((cnt k ds = 1%nat /\
+                 lookup (idof k) ((seq r, ncalls r) :: remove (seq r) (responses r)) <> Some k) \/
+                (cnt k ds = 0%nat /\
+                 lookup (idof k) ((seq r, ncalls r) :: remove (seq r) (responses r)) = Some k)))).
+    { intros k Hk2 Hno. rewrite (Hlk k Hk2).
+      destruct (seq r =? idof k) eqn:Ei.
+      - apply N.eqb_eq in Ei.
+        assert (Hx : Some (ncalls r) <> Some k) by (intros Hx; inversion Hx; lia).
+        destruct (B k Hk2) as [(Hs & Hc & Hn)|(Hs & [[Hc Hn]|[Hc Hl]])].
+        + left. auto.
+        + right. split; [exact Hs|]. left. auto.
+        + rewrite <- Ei in Hl. congruence.
+      - apply B. exact Hk2. }
     destruct (lookup (seq r) (responses r)) as [ko|] eqn:Eold.
     + (* id reuse: the superseded call is failed, the new one stays registered *)
       inversion H; subst r' evs; clear H.
       destruct (A _ _ Eold) as [Hko Hkoid].
+      rewrite Hstr. cbn [streams flat_map]. rewrite app_nil_r.
       unfold dones at 1. cbn [flat_map]. fold (dones (evs2 ++ [EvDone ko (OFailed TXT_DUPLICATE)])).
       rewrite dones_app, S4. cbn [dones flat_map app].
-      unfold J; cbn [responses ncalls seq]. rewrite S2. split; [exact Hnew|]. split; [|split; [|split]].
+      unfold J; cbn [responses ncalls seq]. rewrite S2. split; [exact Hnew|]. split; [|split; [|split; [|split]]].
       * intros k Hk. rewrite cnt_app, cnt_one.
         destruct (N.eq_dec k (ncalls r)) as [->|Hne].
-        -- right. rewrite C by lia. destruct (ko =? ncalls r) eqn:Ex; [apply N.eqb_eq in Ex; lia|].
+        -- right. split; [exact Hnotin|]. right. rewrite C by lia.
+           destruct (ko =? ncalls r) eqn:Ex; [apply N.eqb_eq in Ex; lia|].
            split; [reflexivity|exact Hself].
-        -- assert (Hk2 : k < ncalls r) by lia. rewrite (Hlk k Hk2).
+        -- assert (Hk2 : k < ncalls r) by lia.
            destruct (ko =? k) eqn:Eko.
-           ++ apply N.eqb_eq in Eko. subst k. left.
-              destruct (B ko Hk2) as [[_ Hn]|[Hc _]]; [rewrite <- Hkoid in Hn; congruence|].
-              rewrite Hc. split; [reflexivity|]. rewrite Hkoid, N.eqb_refl. intros Hx. inversion Hx. lia.
-           ++ rewrite Nat.add_0_r. apply N.eqb_neq in Eko.
-              destruct (seq r =? idof k) eqn:Ei.
-              ** apply N.eqb_eq in Ei. left.
-                 destruct (B k Hk2) as [[Hc _]|[_ Hl]].
-                 --- split; [exact Hc|]. intros Hx. inversion Hx. lia.
-                 --- rewrite <- Ei, Eold in Hl. congruence.
-              ** apply B. exact Hk2.
+           ++ apply N.eqb_eq in Eko. subst k.
+              destruct (B ko Hk2) as [(Hs & Hc & Hn)|(Hs & [[Hc Hn]|[Hc Hl]])];
+                [rewrite <- Hkoid in Hn; congruence|rewrite <- Hkoid in Hn; congruence|].
+              right. split; [exact Hs|]. left. rewrite Hc. split; [reflexivity|].
+              rewrite (Hlk ko Hk2), Hkoid, N.eqb_refl. intros Hx. inversion Hx. lia.
+           ++ rewrite Nat.add_0_r. apply N.eqb_neq in Eko. apply Hold; [exact Hk2|congruence].
       * intros k Hk. rewrite cnt_app, cnt_one. rewrite C by lia.
         destruct (ko =? k) eqn:Ex; [apply N.eqb_eq in Ex; lia|reflexivity].
       * exact Hseq.
       * intros p Hp. apply in_app_or in Hp as [Hp|[<-|[]]]; [auto|]. right; left. reflexivity.
+      * intros k Hi. apply F in Hi. lia.
     + inversion H; subst r' evs; clear H.
+      replace (EvCall (ncalls r) (seq r) :: evs2) with (EvCall (ncalls r) (seq r) :: evs2 ++ []) by (rewrite app_nil_r; reflexivity).
+      rewrite Hstr. cbn [streams flat_map]. rewrite !app_nil_r.
       unfold dones at 1. cbn [flat_map]. fold (dones evs2). rewrite S4, app_nil_r.
-      unfold J; cbn [responses ncalls seq]. rewrite S2. split; [exact Hnew|]. split; [|split; [|split]].
+      unfold J; cbn [responses ncalls seq]. rewrite S2. split; [exact Hnew|]. split; [|split; [|split; [|split]]].
       * intros k Hk.
         destruct (N.eq_dec k (ncalls r)) as [->|Hne].
-        -- right. rewrite C by lia. split; [reflexivity|exact Hself].
-        -- assert (Hk2 : k < ncalls r) by lia. rewrite (Hlk k Hk2).
-           destruct (seq r =? idof k) eqn:Ei.
-           ++ apply N.eqb_eq in Ei. left.
-              destruct (B k Hk2) as [[Hc _]|[_ Hl]].
-              ** split; [exact Hc|]. intros Hx. inversion Hx. lia.
-              ** rewrite <- Ei, Eold in Hl. congruence.
-           ++ apply B. exact Hk2.
+        -- right. split; [exact Hnotin|]. right. rewrite C by lia. split; [reflexivity|exact Hself].
+        -- apply Hold; [lia|discriminate].
       * intros k Hk. apply C. lia.
       * exact Hseq.
       * exact E.
+      * intros k Hi. apply F in Hi. lia.
 Qed.
 
 (* ---------- threading J through the framing layer ---------- *)
@@ -239,14 +339,15 @@ Variable decode : list N -> option msg.
 Notation body_phase := (body_phase decode method_kind req_ok service).
 Notation descriptor_ready := (descriptor_ready decode method_kind req_ok service).
 Notation feed := (feed decode method_kind req_ok service).
-Notation step := (step decode method_kind req_ok service call_name call_req).
-Notation run := (run decode method_kind req_ok service call_name call_req).
+Notation step := (step decode method_kind req_ok service).
+Notation run := (run decode method_kind req_ok service).
 
-Definition JT (r : rpc) (tr : list event) : Prop := J r (dones tr) (dispatched tr).
+Definition JT (r : rpc) (tr : list event) : Prop := J r (dones tr) (dispatched tr) (streams tr).
 
-Lemma JT_frame r tr evs : JT r tr -> dones evs = [] -> JT r (tr ++ evs).
+Lemma JT_frame r tr evs : JT r tr -> dones evs = [] -> streams evs = [] -> JT r (tr ++ evs).
 Proof.
-  unfold JT. intros H Hd. rewrite dones_app, dispatched_app, Hd, app_nil_r. apply J_mono. exact H.
+  unfold JT. intros H Hd Hs. rewrite dones_app, dispatched_app, streams_app, Hd, Hs, !app_nil_r.
+  apply J_mono. exact H.
 Qed.
 
 Lemma body_phase_J ok f r avail f' r' rest evs tr :
@@ -260,13 +361,14 @@ Proof.
       inversion H; subst f' r' rest evs; clear H.
       pose proof Ed as Ed2. apply (dispatch_events method_kind req_ok service) in Ed2.
       apply rpc_only_dispatched in Ed2.
-      unfold JT in *. rewrite dones_app, dispatched_app.
-      unfold dones at 2. unfold dispatched at 2. cbn [flat_map app].
-      fold (dones evs1). fold (dispatched evs1). rewrite Ed2.
-      eapply J_dispatch; [apply J_mono; exact HJ| |exact Ed].
-      apply in_or_app. right. left. reflexivity.
-    + inversion H; subst. apply JT_frame; [exact HJ|reflexivity].
-  - inversion H; subst. apply JT_frame; [exact HJ|reflexivity].
+      unfold JT in *. rewrite dones_app, dispatched_app, streams_app.
+      unfold dones at 2. unfold dispatched at 2. unfold streams at 2. cbn [flat_map app].
+      fold (dones evs1). fold (dispatched evs1). fold (streams evs1). rewrite Ed2.
+      eapply J_dispatch in Ed; [| apply J_mono; exact HJ |].
+      * destruct Ed as [Ed Es]. rewrite Es, app_nil_r. exact Ed.
+      * apply in_or_app. right. left. reflexivity.
+    + inversion H; subst. apply JT_frame; [exact HJ|reflexivity|reflexivity].
+  - inversion H; subst. apply JT_frame; [exact HJ|reflexivity|reflexivity].
 Qed.
 
 Lemma descriptor_ready_J ok f r avail f' r' rest evs tr :
@@ -277,10 +379,10 @@ Proof.
   destruct (expected f =? 0); [|eapply body_phase_J; eauto].
   destruct (read_header f avail) as [[[f1 rs] ver] size].
   destruct (size =? 0); [inversion H; subst; rewrite app_nil_r; exact HJ|].
-  destruct (negb _); [inversion H; subst; apply JT_frame; [exact HJ|reflexivity]|].
-  destruct (MAX_BUFFER_SIZE <? size); [inversion H; subst; apply JT_frame; [exact HJ|reflexivity]|].
+  destruct (negb _); [inversion H; subst; apply JT_frame; [exact HJ|reflexivity|reflexivity]|].
+  destruct (MAX_BUFFER_SIZE <? size); [inversion H; subst; apply JT_frame; [exact HJ|reflexivity|reflexivity]|].
   destruct (allocate_msg_buffer _ size) as [f4 ret].
-  destruct (ret <? size); [inversion H; subst; apply JT_frame; [exact HJ|reflexivity]|].
+  destruct (ret <? size); [inversion H; subst; apply JT_frame; [exact HJ|reflexivity|reflexivity]|].
   eapply body_phase_J; eauto.
 Qed.
 
@@ -290,7 +392,7 @@ Proof.
   induction fuel as [|fuel IH]; intros ok f r avail f' r' evs tr HJ H; cbn [Model.feed] in H.
   - destruct avail; [inversion H; subst; rewrite app_nil_r; exact HJ|].
     destruct (closed f || dead r); inversion H; subst; [rewrite app_nil_r; exact HJ|].
-    apply JT_frame; [exact HJ|reflexivity].
+    apply JT_frame; [exact HJ|reflexivity|reflexivity].
   - destruct avail as [|a av]; [inversion H; subst; rewrite app_nil_r; exact HJ|].
     destruct (closed f || dead r); [inversion H; subst; rewrite app_nil_r; exact HJ|].
     destruct (descriptor_ready ok f r (a :: av)) as [[[f1 r1] rest] evs1] eqn:Edr.
@@ -302,12 +404,15 @@ Qed.
 Lemma step_J f r o f' r' evs tr :
   JT r tr -> step f r o = (f', r', evs) -> JT r' (tr ++ evs).
 Proof.
-  intros HJ H. destruct o as [bs ok|ok]; cbn [Model.step] in H.
+  intros HJ H. destruct o as [bs ok|st nm rq ok|q res ok]; cbn [Model.step] in H.
   - eapply feed_J; eauto.
-  - destruct (call_method _ _ _ _ _) as [r1 evs1] eqn:Ec. inversion H; subst.
+  - destruct (call_method _ _ _ _ _ _) as [r1 evs1] eqn:Ec. inversion H; subst.
     pose proof Ec as Ec2. apply call_method_events in Ec2. apply rpc_only_dispatched in Ec2.
-    unfold JT in *. rewrite dones_app, dispatched_app, Ec2, app_nil_r.
+    unfold JT in *. rewrite dones_app, dispatched_app, streams_app, Ec2, app_nil_r.
     eapply J_call; eauto.
+  - destruct (request_complete _ _ _ _ _) as [r1 evs1] eqn:Ec. inversion H; subst.
+    apply request_complete_rpc in Ec as (S1 & S2 & S3 & S4 & S5).
+    apply JT_frame; [|exact S4|exact S5]. unfold JT in *. eapply J_same; eauto.
 Qed.
 
 Lemma run_J ops : forall f r f' r' evs tr,
@@ -321,7 +426,7 @@ Proof.
     eapply IH; [|exact Er]. eapply step_J; eauto.
 Qed.
 
-Lemma JT_init : s0 < 4294967296 -> JT (mkRpc false s0 0 []) [].
+Lemma JT_init : s0 < 4294967296 -> JT (mkRpc false s0 0 [] 0 [] []) [].
 Proof.
   intros Hs. unfold JT, J; cbn. repeat split; try discriminate; try lia; try contradiction.
   unfold idof. rewrite N.add_0_r. symmetry. apply u32_id. exact Hs.
@@ -329,8 +434,8 @@ Qed.
 
 Lemma run_once ops f r tr :
   s0 < 4294967296 ->
-  run init_frame (mkRpc false s0 0 []) ops = (f, r, tr) ->
-  J r (dones tr) (dispatched tr).
+  run init_frame (mkRpc false s0 0 [] 0 [] []) ops = (f, r, tr) ->
+  J r (dones tr) (dispatched tr) (streams tr).
 Proof.
   intros Hs H. apply (run_J ops _ _ _ _ _ [] (JT_init Hs)) in H. exact H.
 Qed.
@@ -358,21 +463,53 @@ Proof.
   - auto.
 Qed.
 
-Lemma call_send_failed_closed cl ok r r' evs :
+Lemma call_send_failed_closed cl ok nm rq r r' evs :
   dead r || cl = true ->
-  call_method call_name call_req cl ok r = (r', evs) ->
+  call_method cl ok false nm rq r = (r', evs) ->
   dones evs = [(ncalls r, OFailed TXT_SEND_FAILED)] /\ responses r' = responses r.
 Proof.
-  unfold call_method, send_msg; cbn [dead seq ncalls responses].
+  unfold call_method, send_msg; cbn [dead seq ncalls responses next_call].
   intros ->; cbn; intros H; inversion H; subst; cbn; auto.
 Qed.
 
-Lemma call_send_failed cl r r' evs :
-  call_method call_name call_req cl false r = (r', evs) ->
+Lemma call_send_failed cl nm rq r r' evs :
+  call_method cl false false nm rq r = (r', evs) ->
   dones evs = [(ncalls r, OFailed TXT_SEND_FAILED)] /\ responses r' = responses r.
 Proof.
-  unfold call_method, send_msg; cbn [dead seq ncalls responses].
+  unfold call_method, send_msg; cbn [dead seq ncalls responses next_call].
   destruct (dead r || cl); cbn; intros H; inversion H; subst; cbn; auto.
+Qed.
+
+(* a streaming call puts its own sequence number on the wire, completes nothing, registers nothing *)
+Lemma call_streaming cl ok nm rq r r' evs :
+  call_method cl ok true nm rq r = (r', evs) ->
+  dones evs = [] /\ responses r' = responses r /\ ncalls r' = ncalls r + 1 /\
+  seq r' = u32 (seq r + 1) /\
+  forall m, In (EvSend m) evs -> m = mkMsg STREAM_REQUEST (seq r) nm rq.
+Proof.
+  unfold call_method, send_msg; cbn [dead seq ncalls responses next_call].
+  destruct (dead r || cl); cbn.
+  - intros H; inversion H; subst; cbn. repeat split; auto. intros m [Hx|[]]. discriminate.
+  - destruct ok; intros H; inversion H; subst; cbn; repeat split; auto.
+    + intros m [Hx|[Hx|[]]]; [discriminate|inversion Hx; reflexivity].
+    + intros m [Hx|[Hx|[]]]; discriminate.
+Qed.
+
+(* within 2^32 draws two calls never share an id *)
+Lemma ids_distinct k k' : k' < k -> k < k' + 4294967296 -> idof k <> idof k'.
+Proof.
+  unfold idof, u32. intros H1 H2 He.
+  assert (Hk : s0 + k = s0 + k' + (k - k')) by lia.
+  rewrite Hk in He.
+  rewrite <- N.add_mod_idemp_l in He by lia.
+  remember ((s0 + k') mod 4294967296) as a.
+  assert (Ha : a < 4294967296) by (subst a; apply N.mod_lt; lia).
+  assert (Hd : 0 < k - k' < 4294967296) by lia.
+  destruct (N.lt_ge_cases (a + (k - k')) 4294967296) as [Hlt|Hge].
+  - rewrite N.mod_small in He by exact Hlt. lia.
+  - assert (Hm : (a + (k - k')) mod 4294967296 = a + (k - k') - 4294967296).
+    { symmetry. apply N.mod_unique with (q := 1); lia. }
+    rewrite Hm in He. lia.
 Qed.
 
 End Once.
